@@ -409,7 +409,10 @@ def gen_bbnoh(rng, geom):
         r0 = logu(rng, 0.005, 0.02) / c["b"]
     else:
         r0 = _pos(rng)
-    return dict(eos=name, consts=c, ic=dict(density=r0, velocity=-logu(rng, 0.3, 3), pressure=0.0, symmetry=geom - 1))
+    u0 = -logu(rng, 0.3, 3)
+    # planar problems may start from a pressurised state (the only geometry for which the solver admits P0 > 0)
+    p0 = r0 * u0 * u0 * logu(rng, 0.01, 0.5) if (geom == 1 and rng.random() < 0.5) else 0.0
+    return dict(eos=name, consts=c, ic=dict(density=r0, velocity=u0, pressure=p0, symmetry=geom - 1))
 
 
 def build_bbnoh(cls, kw):
@@ -474,7 +477,12 @@ reg("SuOlson", "suolson.suolson:SuOlson", gen_so, dom_so, cost=0.2)
 
 
 def gen_rad_default(rng, geom):
-    return dict()
+    # the defaults, or another material and upstream state (the class keeps default-material numbers - sound speed, P0 -
+    # as class attributes: a solver must use the user's)
+    if rng.random() < 0.2:
+        return dict()
+    return dict(M0=float(choice(rng, [1.05, 1.2, 1.4])), gamma=float(choice(rng, [5.0 / 3.0, 1.4, 1.5])), Tref=logu(rng, 50, 300),
+                Cv=1.4472799784454e12 * logu(rng, 0.5, 2.0), rho0=logu(rng, 0.5, 2.0))
 
 
 def dom_rad(rng, s, kw, geom, n):
